@@ -1,15 +1,24 @@
 import Infretis.Lemmas.Template
 import Infretis.Lemmas.TemplateSubst
+import Infretis.Lemmas.TemplateCp2k
+import Infretis.Lemmas.CodecFixed
+import Infretis.Lemmas.CodecLmp
 /-!
 # C19 — configuration, trajectory and input-template codecs are lossless
 
 Property theorems only.  Models:
 * `Infretis/Model/Template.lean` — `_modify_input`, `_read_input_settings`, `write_for_run`
-* (sections further down) the CP2K section tree, the fixed-point text codecs, lammpstrj / TRR.
+* `Infretis/Model/TemplateCp2k.lean` — the CP2K section-tree editor (`update_cp2k_input` and friends)
+* `Infretis/Model/Codec.lean` — decimal fixed point, `.g96` and extended-xyz readers/writers
+* `Infretis/Model/CodecLmp.lean` — `.lammpstrj` (numbers as opaque numpy tokens) and the TRR byte layout
+The proofs live in `Infretis/Lemmas/{Template,TemplateSubst,TemplateCp2k,CodecFixed,CodecLmp}.lean`;
+sections 3–5 restate the property theorems proved there.
 
 All statements are for templates, settings and configurations of any size.
 -/
 namespace Infretis.C19
+
+section Tmpl
 open Infretis.Template
 
 /-! ## 1. the mdp-style editor `_modify_input`
@@ -247,5 +256,329 @@ example :
     let t : Str := "variable a index infretis_a # c\nrun infretis_b infretis_b\n".toList
     (keys s).Nodup ∧ (writeForRun s t).written =
       ["variable a index 1.5 # c\n".toList, "run /tmp/x y /tmp/x y\n".toList] := by decide
+
+/-- the guards G1, G2 are satisfiable together with a successful edit -/
+example :
+    (keys [("$a".toList, "1".toList)]).Nodup ∧
+    (∀ kv ∈ [("$a".toList, "1".toList)], ∀ k ∈ keys [("$a".toList, "1".toList)], ¬ k <:+: kv.2) ∧
+    (∀ l ∈ linesKeep "v $a\n".toList, ∀ tok ∈ splitWS l, ∀ k ∈ keys [("$a".toList, "1".toList)],
+        k <:+: tok → tok = k) := by
+  have hl : linesKeep "v $a\n".toList = ["v $a\n".toList] := by decide
+  have hs : splitWS "v $a\n".toList = ["v".toList, "$a".toList] := by decide
+  refine ⟨by decide, ?_, ?_⟩
+  · intro kv hkv k hk hinf
+    simp only [List.mem_singleton] at hkv
+    simp only [keys, List.map_cons, List.map_nil, List.mem_singleton] at hk
+    subst hkv; subst hk
+    exact absurd (hinf.subset (by decide : '$' ∈ "$a".toList)) (by decide)
+  · intro l hl' tok htok k hk hinf
+    rw [hl] at hl'
+    simp only [List.mem_singleton] at hl'
+    subst hl'
+    rw [hs] at htok
+    simp only [keys, List.map_cons, List.map_nil, List.mem_singleton] at hk
+    subst hk
+    simp only [List.mem_cons, List.not_mem_nil, or_false] at htok
+    rcases htok with rfl | rfl
+    · exact absurd (hinf.subset (by decide : '$' ∈ "$a".toList)) (by decide)
+    · rfl
+
+end Tmpl
+
+/-! ## 3. the CP2K section-tree editor (`update_cp2k_input`)
+
+Model: arena of nodes + roots + `node_ref` (Python dict semantics), children in insertion order;
+all comparisons in the tie are on canonical trees (sibling order immaterial).
+The code is NOT idempotent and NOT exact in general — seven defects, each with a
+`…_counterexample` / `…_witness` below and a signature `C19:cp2k:…` in the tie; the general
+theorems hold under exactly the stated guards. -/
+section Cp2k
+open Infretis.Cp2k
+
+/-- **edit_exact (CP2K), target present.**  Exactly the target node changes: merge law (existing
+    keys rewritten in place, new keys appended in dict order, `None` → bare key) or replace law;
+    settings appended (`+=`) or replaced; every other node, the roots and `node_ref` unchanged. -/
+theorem cp2k_edit_exact_present (u : Upd) (st : St) (i : Nat) (n : Node)
+    (href : dget u.target st.ref = some i) (hn : st.arena[i]? = some n)
+    (hmode : u.replace = true ∨ (u.isList = false ∧ ∀ l ∈ n.data, (firstTok l).isSome = true)) :
+    ∃ st', updateNode u st = .ok st' ∧ st'.roots = st.roots ∧ st'.ref = st.ref ∧
+      st'.arena.length = st.arena.length ∧ (∀ j, j ≠ i → st'.arena[j]? = st.arena[j]?) ∧
+      st'.arena[i]? = some { n with
+        data := if u.replace then u.data.map (·.1) else mergeSpec u.data n.data,
+        settings := if u.replace then u.settings else n.settings ++ u.settings } :=
+  Infretis.Cp2k.cp2k_edit_exact_present u st i n href hn hmode
+
+/-- the two loops of `update_node` compute the merge specification -/
+theorem cp2k_merge_eq_spec (u : Upd) (old : List Str) (hl : u.isList = false)
+    (htok : ∀ l ∈ old, (firstTok l).isSome = true) :
+    mergeData u old = .ok (mergeSpec u.data old) :=
+  Infretis.Cp2k.mergeData_eq_spec u old hl htok
+
+/-- **edit_exact (CP2K), target absent.**  The new state extends the old one (no existing node
+    changes; children lists and roots only grow; keys keep their nodes) and the last node is the
+    requested one — carrying, as data, only the KEYS of the requested dict (`list(data)`:
+    the requested values are dropped, see `cp2k_new_section_drops_values_witness`). -/
+theorem cp2k_edit_exact_absent (u : Upd) (st : St) (hwf : RefOk st) (habs : dget u.target st.ref = none) :
+    ∃ st', updateNode u st = .ok st' ∧ RefOk st' ∧ Ext st st' ∧ st.arena.length < st'.arena.length ∧
+      ∃ nn, st'.arena[st'.arena.length - 1]? = some nn ∧ dget u.target st'.ref = some (st'.arena.length - 1) ∧
+        (splitArrow u.target).getLast? = some nn.title ∧ nn.settings = u.settings ∧
+        nn.data = u.data.map (·.1) ∧ nn.children = [] :=
+  Infretis.Cp2k.cp2k_edit_exact_absent u st hwf habs
+
+/-- **edit_idempotent (CP2K)** under the guard that excludes the defects: `replace`, or no
+    settings and a dict of token keys without `None` values. -/
+theorem cp2k_edit_idempotent_partial (u : Upd) (st st1 : St) (i : Nat)
+    (href : dget u.target st.ref = some i) (h1 : updateNode u st = .ok st1)
+    (hg : u.replace = true ∨ (u.settings = [] ∧ u.isList = false ∧ DataOk u.data)) :
+    updateNode u st1 = .ok st1 :=
+  Infretis.Cp2k.cp2k_edit_idempotent_partial u st st1 i href h1 hg
+
+/-- `node.settings += settings`: `&MD X` becomes `&MD X X` on the second application
+    (signature C19:cp2k:settings-appended-twice) -/
+theorem cp2k_edit_idempotent_counterexample :
+    updateInput tplMD [updSettings] [] = .ok "&MOTION\n  &MD X\n    STEPS 10\n  &END MD\n&END MOTION\n".toList ∧
+    updateInput "&MOTION\n  &MD X\n    STEPS 10\n  &END MD\n&END MOTION\n".toList [updSettings] [] =
+      .ok "&MOTION\n  &MD X X\n    STEPS 10\n  &END MD\n&END MOTION\n".toList :=
+  Infretis.Cp2k.cp2k_edit_idempotent_counterexample
+
+/-- a `None` value prints `FOO` first and `FOO None` on the second application
+    (signature C19:cp2k:none-value-printed-as-None) -/
+theorem cp2k_edit_idempotent_none_counterexample :
+    updateInput tplMD [updNone] [] = .ok "&MOTION\n  &MD\n    STEPS 10\n    FOO\n  &END MD\n&END MOTION\n".toList ∧
+    updateInput "&MOTION\n  &MD\n    STEPS 10\n    FOO\n  &END MD\n&END MOTION\n".toList [updNone] [] =
+      .ok "&MOTION\n  &MD\n    STEPS 10\n    FOO None\n  &END MD\n&END MOTION\n".toList :=
+  Infretis.Cp2k.cp2k_edit_idempotent_none_counterexample
+
+/-- removal is idempotent -/
+theorem cp2k_remove_idempotent (target : Str) (st st' : St) (hn : (st.ref.map (·.1)).Nodup)
+    (h : removeNode target st = .ok st') : removeNode target st' = .ok st' :=
+  Infretis.Cp2k.cp2k_remove_idempotent target st st' hn h
+
+/-- duplicate-title disambiguation, two siblings: both addressable by `path->settings` -/
+theorem cp2k_duplicates_pair_partial (arena : List Node) (ref : List (Str × Nat)) (a b : Nat)
+    (hp : pathKey arena b = pathKey arena a) (habs : dget (pathKey arena a) ref = none)
+    (hs : settingsKey arena a ≠ settingsKey arena b) :
+    dget (pathKey arena a ++ arrow ++ settingsKey arena a) (register arena (register arena ref a) b) = some a ∧
+    dget (pathKey arena a ++ arrow ++ settingsKey arena b) (register arena (register arena ref a) b) = some b ∧
+    dget (pathKey arena a) (register arena (register arena ref a) b) = none :=
+  Infretis.Cp2k.register_pair arena ref a b hp habs hs
+
+/-- …but a THIRD sibling with the same title is registered under the bare path and cannot be
+    addressed by its settings, for any arena (signature C19:cp2k:third-duplicate-bare-key) -/
+theorem cp2k_third_duplicate_bare (arena : List Node) (ref : List (Str × Nat)) (a b c : Nat)
+    (hpb : pathKey arena b = pathKey arena a) (hpc : pathKey arena c = pathKey arena a)
+    (habs : dget (pathKey arena a) ref = none)
+    (habs3 : dget (pathKey arena a ++ arrow ++ settingsKey arena c) ref = none)
+    (hca : settingsKey arena c ≠ settingsKey arena a) (hcb : settingsKey arena c ≠ settingsKey arena b) :
+    dget (pathKey arena a) (register arena (register arena (register arena ref a) b) c) = some c ∧
+    dget (pathKey arena a ++ arrow ++ settingsKey arena c)
+      (register arena (register arena (register arena ref a) b) c) = none :=
+  Infretis.Cp2k.register_third_bare arena ref a b c hpb hpc habs habs3 hca hcb
+
+/-- concrete witness: updating `A->K->Z` creates `&Z` inside `&K Z` instead of editing it -/
+theorem cp2k_three_duplicates_counterexample :
+    (readText tpl3).map (fun rs => rs.toSt.ref) =
+      .ok [("A".toList, 0), ("A->K->X".toList, 1), ("A->K->Y".toList, 2), ("A->K".toList, 3)] ∧
+    updateInput tpl3 [updZ] [] =
+      .ok "&A\n  &K X\n  &END K\n  &K Y\n  &END K\n  &K Z\n    &Z\n      V\n    &END Z\n  &END K\n&END A\n".toList :=
+  Infretis.Cp2k.cp2k_three_duplicates_counterexample
+
+/-- a newly created section gets the dict KEYS only (signature C19:cp2k:new-section-drops-values) -/
+theorem cp2k_new_section_drops_values_witness :
+    updateInput tplMD [updEach] [] =
+      .ok "&MOTION\n  &MD\n    STEPS 10\n  &END MD\n  &PRINT\n    &EACH\n      MD\n    &END EACH\n  &END PRINT\n&END MOTION\n".toList :=
+  Infretis.Cp2k.cp2k_new_section_drops_values_witness
+
+example : dget updMerge.target stMD.ref = some 1 ∧ stMD.arena[1]?.isSome = true ∧ updMerge.isList = false := by decide
+
+end Cp2k
+
+/-! ## 4. decimal fixed-point text codecs: `.g96` and extended xyz
+
+A number is a sign-magnitude decimal `Dec` (Python floats have a signed zero and
+`-1 * vel` produces `-0.0`, printed `-0.000000000`), so the statements are exact to the byte. -/
+section Codec
+open Infretis.Codec
+
+/-- reading back a `'{:width.prec f}'` field gives exactly the decimal written — any width,
+    any magnitude (also when the field overflows), both zeros -/
+theorem parse_fmt_fixed (width prec : Nat) (d : Dec) :
+    parseFixed prec (fmtFixed width prec d) = some d :=
+  Infretis.Codec.parse_fmt_fixed width prec d
+
+theorem fmtFixed_length (width prec : Nat) (d : Dec) (h : (fmtCore prec d).length ≤ width) :
+    (fmtFixed width prec d).length = width :=
+  Infretis.Codec.fmtFixed_length width prec d h
+
+example : parseFixed 9 (fmtFixed 15 9 ⟨true, 0⟩) = some ⟨true, 0⟩ ∧
+    fmtFixed 15 9 ⟨true, 0⟩ = "   -0.000000000".toList := by decide
+
+/-- **read_write_roundtrip (.g96)** for any atom count under the explicit width guard `G96Ok`
+    (24-character labels, every position/velocity component fits its 15 columns, box components
+    after the first keep a leading blank, one raw BOX line, 3 or 9 box components) -/
+theorem g96_read_write_roundtrip (raw : G96Raw) (xyz vel : List V3) (box : List Dec)
+    (h : G96Ok raw xyz vel box) :
+    ∃ t, writeG96 raw xyz (some vel) (some box) = .ok t ∧
+      readG96 t = .ok ⟨rawAfter raw box, xyz, vel, some box⟩ :=
+  Infretis.Codec.g96_read_write_roundtrip raw xyz vel box h
+
+/-- `|x| < 10^5` (non-negative) / `|x| < 10^4` (negative) fits a 15-column field -/
+theorem g96_fit_of_lt (d : Dec) (hp : d.neg = false → d.mag < 10 ^ 14) (hn : d.neg = true → d.mag < 10 ^ 13) :
+    Fit d :=
+  Infretis.Codec.fit_of_lt d hp hn
+
+example : G96Ok exRaw exXyz exVel exBox := Infretis.Codec.exG96_ok
+
+/-- the box guard is necessary: BOX is read by white-space split, so a 15-column box field
+    without a leading blank merges with its neighbour → ValueError (positions are read by columns) -/
+theorem g96_roundtrip_wide_box_counterexample :
+    ∃ t, writeG96 exRaw exXyz (some exVel) (some [⟨false, 7000000000⟩, ⟨true, 1234000000005⟩, ⟨false, 5⟩]) = .ok t ∧
+      readG96 t = .error .value :=
+  Infretis.Codec.g96_roundtrip_wide_box_counterexample
+
+/-- **read_write_roundtrip (xyz)** for any atom count ≥ 1, any ordering, non-empty white-space
+    free names, arbitrary 9-decimal numbers (no width guard: the reader splits on white space)
+    and an arbitrary or absent 4-decimal box -/
+theorem xyz_read_write_roundtrip (c : Conf) (h : XyzOk c) (t : Text)
+    (hw : writeXyz (some c.names) c.pos c.vel c.box none = .ok t) :
+    readXyzFrames t = ([snapOf c], none) ∧ convertSnapshot (snapOf c) = .ok c ∧
+      readConfiguration t = .ok c :=
+  Infretis.Codec.xyz_read_write_roundtrip c h t hw
+
+theorem xyz_write_ok (c : Conf) (h : XyzOk c) :
+    writeXyz (some c.names) c.pos c.vel c.box none = .ok (unlines (frameLines c)) :=
+  Infretis.Codec.xyz_write_ok c h
+
+example : XyzOk exConf := Infretis.Codec.exConf_ok
+
+/-- zero atoms: the frame is written but `convert_snapshot` raises KeyError('atomname') -/
+theorem xyz_roundtrip_zero_atoms_counterexample :
+    ∃ t, writeXyz (some []) [] [] none none = .ok t ∧ readConfiguration t = .error .key :=
+  Infretis.Codec.xyz_roundtrip_zero_atoms_counterexample
+
+/-- **extract_frame_k (xyz).**  Frame `k` of a trajectory of any number of frames is written
+    byte for byte as frame `k` alone would be; beyond the end nothing is written. -/
+theorem extract_frame_k (cs : List Conf) (h : ∀ c ∈ cs, XyzOk c) (t : Text)
+    (ht : writeTraj cs = .ok t) (k : Nat) :
+    (∀ hk : k < cs.length, ∃ o, writeConf cs[k] = .ok o ∧ extractFrame k t = .ok (some o)) ∧
+    (cs.length ≤ k → extractFrame k t = .ok none) :=
+  ⟨fun hk => Infretis.Codec.extract_frame_k cs h t ht k hk,
+   fun hk => Infretis.Codec.extract_frame_beyond cs h t ht k hk⟩
+
+example : ∀ c ∈ [exConf, exConf2, exConf], XyzOk c := Infretis.Codec.exTraj_ok
+
+/-- **reverse_only_negates_vel (xyz).**  The reversed file is exactly the file of the same
+    configuration with every velocity component sign-flipped (box, positions, names untouched);
+    reversing twice restores the original bytes. -/
+theorem xyz_reverse_only_negates_vel (c : Conf) (h : XyzOk c) (t : Text) (hw : writeConf c = .ok t) :
+    (∃ t', reverseXyz t = .ok t' ∧ writeConf (revConf c) = .ok t' ∧
+      readConfiguration t' = .ok (revConf c)) ∧
+    (∃ t', reverseXyz t = .ok t' ∧ reverseXyz t' = .ok t) :=
+  ⟨Infretis.Codec.xyz_reverse_only_negates_vel c h t hw, Infretis.Codec.xyz_reverse_twice c h t hw⟩
+
+/-- **reverse_only_negates_vel (.g96)**, also requiring that the negated velocities fit -/
+theorem g96_reverse_only_negates_vel (raw : G96Raw) (xyz vel : List V3) (box : List Dec)
+    (h : G96Ok raw xyz vel box) (hn : ∀ v ∈ vel, Fit3 v.negate) (t : Text)
+    (hw : writeG96 raw xyz (some vel) (some box) = .ok t) :
+    ∃ t', reverseG96 t = .ok t' ∧
+      readG96 t' = .ok ⟨rawAfter raw box, xyz, vel.map V3.negate, some box⟩ ∧
+      reverseG96 t' = .ok t :=
+  Infretis.Codec.g96_reverse_only_negates_vel raw xyz vel box h hn t hw
+
+end Codec
+
+/-! ## 5. `.lammpstrj` and the TRR byte layout
+
+LAMMPS numbers are numpy `str()` tokens, carried as opaque tokens (`Num`, `negate` toggles the
+sign).  TRR: IEEE decoding is outside the model; a decoded real is its field bytes normalised
+to big-endian order, so "decodes identically" = "the same field bytes are selected". -/
+section Lmp
+open Infretis.Lmp
+
+/-- sorting by id is a permutation, sorted, and with distinct ids the unique strictly increasing
+    arrangement (independent of the algorithm behind `np.argsort`) -/
+theorem lmp_sort_perm_sorted (atoms : List Atom) :
+    (sortAtoms atoms).Perm atoms ∧ SortedById (sortAtoms atoms) ∧
+    (DistinctIds atoms →
+      StrictById (sortAtoms atoms) ∧ ∀ r : List Atom, r.Perm atoms → StrictById r → r = sortAtoms atoms) :=
+  Infretis.Lmp.lmp_sort_perm_sorted atoms
+
+/-- **read_write_roundtrip (.lammpstrj)** for any `n ≥ 2` atoms in any id ordering -/
+theorem lmp_read_write_roundtrip (atoms : List Atom) (b : List (List Num))
+    (hn : 2 ≤ atoms.length) (hat : AtomsOK atoms) (hb : BoxOK b) (hd : DistinctIds atoms) :
+    readFrame (writeFrame { atoms := atoms, box := some b }) 0 atoms.length
+        = .ok { atoms := sortAtoms atoms, box := some b }
+    ∧ (sortAtoms atoms).Perm atoms
+    ∧ SortedById (sortAtoms atoms)
+    ∧ (SortedById atoms →
+        readFrame (writeFrame { atoms := atoms, box := some b }) 0 atoms.length
+          = .ok { atoms := atoms, box := some b }) :=
+  Infretis.Lmp.lmp_read_write_roundtrip atoms b hn hat hb hd
+
+example : 2 ≤ exAtoms.length ∧ AtomsOK exAtoms ∧ BoxOK exBox ∧ DistinctIds exAtoms := Infretis.Lmp.exAtoms_ok
+
+/-- the property's own scope: one atom → IndexError; written without box → ValueError -/
+theorem lmp_out_of_scope (a : Atom) (t : List Atom) (b : List (List Num)) (ha : AtomsOK (a :: t))
+    (hb : BoxOK b) (n : Nat) :
+    readFrame (writeFrame { atoms := [a], box := some b }) 0 1 = .error .index ∧
+    readFrame (writeFrame { atoms := a :: t, box := none }) 0 n = .error .value :=
+  ⟨Infretis.Lmp.lmp_single_atom_index_error a b (ha a (List.mem_cons_self)) hb,
+   Infretis.Lmp.lmp_no_box_value_error a t ha n⟩
+
+/-- **extract_frame_k (.lammpstrj)** -/
+theorem lmp_extract_frame_k (cs : List Conf) (n k : Nat) (hn : 2 ≤ n)
+    (hcs : ∀ c ∈ cs, FrameOK n c) (hk : k < cs.length) :
+    readFrame (writeFrames cs) (k : Int) n = .ok (sortConf cs[k])
+    ∧ extractFrame (writeFrames cs) (k : Int) n = .ok (writeFrame (sortConf cs[k]))
+    ∧ readFrame (writeFrame (sortConf cs[k])) 0 n = .ok (sortConf cs[k]) :=
+  Infretis.Lmp.lmp_extract_frame_k cs n k hn hcs hk
+
+/-- **reverse_only_negates_vel (.lammpstrj)** -/
+theorem lmp_reverse_only_negates_vel (c : Conf) (n : Nat) (hn : 2 ≤ n) (hc : FrameOK n c) :
+    reverseVel (writeFrame c) n = .ok (writeFrame (negVel (sortConf c)))
+    ∧ (negVel (sortConf c)).box = c.box
+    ∧ (negVel (sortConf c)).atoms.map (fun a => (a.id, a.typ, a.pos))
+        = (sortAtoms c.atoms).map (fun a => (a.id, a.typ, a.pos))
+    ∧ (negVel (sortConf c)).atoms.map (fun a => a.vel) = (sortAtoms c.atoms).map (fun a => a.vel.map Num.negate)
+    ∧ (∀ out, reverseVel (writeFrame c) n = .ok out → reverseVel out n = .ok (writeFrame (sortConf c))) :=
+  Infretis.Lmp.lmp_reverse_only_negates_vel c n hn hc
+
+end Lmp
+
+section Trr
+open Infretis.Trr
+
+/-- **trr_decode_endian_precision.**  For every size-consistent logical frame, both byte orders
+    and both precisions, the reader returns exactly the frame's header integers and field bytes
+    and stops at the end of the frame; in particular the big- and little-endian files of the
+    same frame decode to the same values. -/
+theorem trr_decode_endian_precision (e : Endian) (w : Nat) (f : LFrame) (h : LOK w f) (rest : Bytes) :
+    decodeFrame (encodeFrame e w f ++ rest) = .ok (expectedHeader e w f, expectedData f, rest) :=
+  Infretis.Trr.trr_decode_endian_precision e w f h rest
+
+theorem trr_decode_endian_agree (w : Nat) (f : LFrame) (h : LOK w f) (r₁ r₂ : Bytes) :
+    ∃ hb hl d, decodeFrame (encodeFrame .big w f ++ r₁) = .ok (hb, d, r₁)
+      ∧ decodeFrame (encodeFrame .little w f ++ r₂) = .ok (hl, d, r₂)
+      ∧ hb.sz = hl.sz ∧ hb.time = hl.time ∧ hb.lambda = hl.lambda ∧ hb.double = hl.double
+      ∧ hb.endian = .big ∧ hl.endian = .little :=
+  Infretis.Trr.trr_decode_endian_agree w f h r₁ r₂
+
+/-- **extract_frame_k (TRR)**: frames of mixed byte order and precision -/
+theorem trr_frame_k (frames : List (Endian × Nat × LFrame)) (hall : ∀ x ∈ frames, LOK x.2.1 x.2.2) (k : Nat) :
+    (∀ hk : k < frames.length, readTrrFrame (encodeFrames frames) (k : Int)
+        = .ok (some (expectedHeader frames[k].1 frames[k].2.1 frames[k].2.2, expectedData frames[k].2.2)))
+    ∧ (frames.length ≤ k → readTrrFrame (encodeFrames frames) (k : Int) = .ok none) :=
+  Infretis.Trr.trr_frame_k frames hall k
+
+/-- `swap_integer` relates the two readings of the same four bytes -/
+theorem trr_swap_integer_be_le (a b c d : UInt8) :
+    swapInteger (be32 [a, b, c, d] : Nat) = le32 [a, b, c, d]
+    ∧ swapInteger (le32 [a, b, c, d] : Nat) = be32 [a, b, c, d] :=
+  Infretis.Trr.swap_integer_be_le a b c d
+
+example : decodeFrame (encodeFrame .little 4 exF ++ [9, 9]) = .ok (expectedHeader .little 4 exF, expectedData exF, [9, 9]) :=
+  Infretis.Trr.trr_decode_endian_precision .little 4 exF Infretis.Trr.exF_ok [9, 9]
+
+end Trr
 
 end Infretis.C19
